@@ -285,6 +285,10 @@ def _fp(t):
             t.locktime, t.version_int)
 
 
+def _fp_light(t):
+    return (t.txid, t.raw_hex(), tuple((o.value, o.address) for o in t.outputs), t.locktime, t.version_int)
+
+
 def cache_history(job):
     """Worker: run one random history of queries against a real Service with a fresh sqlite cache and one scripted
     provider; return the recorded trace."""
@@ -319,7 +323,32 @@ def cache_history(job):
         t.calc_weight_units()
         return t
 
+    def mk_to(i, height, dest, with_value=True):
+        k = Key(9000 + seed % 1000 + i, network=network)
+        t = Transaction(network=network, witness_type='legacy' if wt == 'legacy' else 'segwit')
+        t.add_input(prev_txid=bytes([i + 1, (seed + 3) % 251]) * 16, output_n=i % 3, keys=k, value=200000 + i, witness_type=wt)
+        t.add_output(150000 + i, dest)
+        t.sign_and_update()
+        if not with_value:
+            t.inputs[0].value = 0            # a transaction the cache refuses to store (input value unknown)
+        t.block_height = height
+        t.confirmations = HEIGHT + 99 - height + 1
+        t.status = 'confirmed'
+        t.date = datetime.fromtimestamp(1602000000 + i, timezone.utc)
+        t.update_totals()
+        t.size = len(t.raw())
+        t.calc_weight_units()
+        return t
+
     singles = {('t', i): mk(i, HEIGHT - 10 - i) for i in (1, 2, 3)}
+    # address histories: a1 has an ordinary history, a2 ends with a transaction in the tip block that the cache cannot store
+    addrs = {'a1': Key(7701 + seed % 97, network=network).address(), 'a2': Key(7801 + seed % 97, network=network).address()}
+    hist = {'a1': [mk_to(40, HEIGHT - 5, addrs['a1']), mk_to(41, HEIGHT - 2, addrs['a1'])],
+            'a2': [mk_to(50, HEIGHT - 7, addrs['a2']), mk_to(51, HEIGHT + 99, addrs['a2'], with_value=rng.random() < 0.4)]}
+    hid = {}
+    for a, l in hist.items():
+        for n, t in enumerate(l):
+            hid[t.txid] = ('h', 10 * (1 if a == 'a1' else 2) + n)
     btxs = {('b', i): mk(20 + i, HEIGHT) for i in range(NB)}
     allt = dict(singles)
     allt.update(btxs)
@@ -332,6 +361,14 @@ def cache_history(job):
         V[(p, 'gettransaction')] = lambda txid: allt[bytxid[txid]]
         V[(p, 'getrawtransaction')] = lambda txid: allt[bytxid[txid]].raw_hex()
         V[(p, 'estimatefee')] = lambda blocks: 20000 + feec[0]
+
+        def gettransactions(address, after_txid='', limit=20):
+            l = next(h for a, h in hist.items() if addrs[a] == address)
+            ids = [t.txid for t in l]
+            if after_txid and after_txid in ids:
+                l = l[ids.index(after_txid) + 1:]
+            return list(l[:limit])
+        V[(p, 'gettransactions')] = gettransactions
 
         def getblock(blockid, parse_transactions, page, limit):
             txs = [btxs[('b', i)] for i in range(NB)][(page - 1) * limit:page * limit]
@@ -350,7 +387,7 @@ def cache_history(job):
     for _ in range(nops):
         prov = rng.choice(['ok', 'ok', 'fail'])
         vfake.SCRIPT['p1'] = 'ok' if prov == 'ok' else 'raise'
-        op = rng.choice(['tx', 'raw', 'block', 'block', 'block', 'fee'])
+        op = rng.choice(['tx', 'raw', 'block', 'block', 'block', 'fee', 'txs', 'txs'])
         ev = {'op': op, 'prov': prov, 'ok': True}
         d = [op]
         try:
@@ -366,6 +403,18 @@ def cache_history(job):
                     ev['ret'] = list(fps.get(_fp(r), ('corrupt', 0)))
                 else:
                     ev['ret'] = list(next((kk for kk, t in allt.items() if t.raw_hex() == r), ('corrupt', 0)))
+            elif op == 'txs':
+                a = rng.choice(['a1', 'a2', 'a2'])
+                ev['a'] = a
+                ev['full'] = [list(hid[t.txid]) for t in hist[a]]
+                d[0] = 'gettransactions(%s) prov=%s' % (a, prov)
+                r = srv.gettransactions(addrs[a])
+                if r is False or r is None:
+                    ev['ok'] = False
+                    ev['ret'] = []
+                else:
+                    ev['ret'] = [list(hid.get(t.txid, ('corrupt', n))) if _fp_light(t) == _fp_light(next((x for x in hist[a] if x.txid == t.txid), t))
+                                 else ['corrupt', n] for n, t in enumerate(r)]
             elif op == 'block':
                 limit = rng.choice([1, 2, 3, 4, 5, 6])
                 page = rng.randrange(1, (NB + limit - 1) // limit + 1)
@@ -397,10 +446,10 @@ def cache_history(job):
                     ev['ret'] = r
         except ServiceError:
             ev['ok'] = False
-            ev.setdefault('ret', ['none', 0] if op in ('tx', 'raw') else ([] if op == 'block' else 0))
+            ev.setdefault('ret', ['none', 0] if op in ('tx', 'raw') else ([] if op in ('block', 'txs') else 0))
         except Exception as e:
             ev['ok'] = True
-            ev['ret'] = ['exception', 0] if op in ('tx', 'raw') else ([['exception', 0]] if op == 'block' else -1)
+            ev['ret'] = ['exception', 0] if op in ('tx', 'raw') else ([['exception', 0]] if op in ('block', 'txs') else -1)
             d[0] += ' EXC %s: %s' % (type(e).__name__, str(e)[:100])
         desc.append(d[0])
         events.append(ev)
